@@ -16,7 +16,15 @@ RULE = ("kinds: kernel (dbal_fast_gauss_scoring_vectorized on NaN/0-padded dense
         "(shape errors).  n_thetas 3-6, 1-4 plates of 0-4 experiments (unequal), variances 2^k (k in -10..10) or full mantissa, "
         "means k/16 or full mantissa, symmetric non-negative matrices with zeros (some all-zero), max_chunk 1-5, distance_factor "
         "in {1, 1/2, 2}; rng.choice recorded and replayed into the model (all C(n,3) triples enumerated, a minority sub-sampled).  "
-        "Non-trivial: everything except malformed; distinct by case description.")
+        "Non-trivial: everything except malformed; distinct by case description.  "
+        "Added after gap review g2 (implementation-side predicates, no Coq model run unless said): kernel-wide (the vectorised kernel on "
+        "harness-padded arrays of 5 / 8 / 9 / 17 / 50 plates - max_chunk's production value - with T in {3,4}, 1-3 unequal experiments: "
+        "each score = the direct estimator); kernel-many (T in {12, 20, 32}: 220 / 1140 / 4960 triples, all enumerated under the default "
+        "budget 5000, ragged plates; T = 40 sub-sampled to 5000 of 9880); scorer with 51-64 plates under the DEFAULT GaussianDBALScorer() "
+        "(max_chunk 50 -> two sub-groups; model correspondence included); scorer-overlap (ScreenSubsets whose selection vectors OVERLAP and "
+        "interleave: plate k = its own rows plus a common batch block, as score_chunk hands them over; reference = direct estimator on the "
+        "selected columns; model correspondence included; invariance under max_chunk / key order / scoring a plate without the others); "
+        "dtype (one plate handed over as float32: the scores of the OTHER, float64, plates must not move).")
 THEOREMS = {
     "C05_vectorised_eq_direct": "kernel on the 0-padded means / NaN-padded variances of any plate list = map of the direct one-plate double loop (all T>0, all plate lists incl. size-0/1 plates and a single plate, all means/variances/matrices/distance_factor, all triple lists, all ln/exp)",
     "C05_kernel_on_padding": "kernel on ANY dense arrays holding the plates (own cells agree, 0/NaN elsewhere, any width >= widest plate) = direct estimator per plate",
@@ -49,7 +57,7 @@ ASSUMPTIONS = [
     "ln / exp are oracles (libm on the nearest double) in the model; log1p(s) is rendered ln(1+s); + - * / are exact in the model, float64 in the code (tolerance 1e-9 * max(1,|score|))",
     "scipy.special.logsumexp is modelled after the installed 1.17.1 algorithm (max elements separated, log1p(s/m)+log(m)+max); equal in real arithmetic to log(sum(exp(a-max)))+max",
     "rng.choice is recorded and replayed; its contract (distinct ranks in range(C(n,3)), size min(C(n,3), max_combos)) is checked on every call; the unranking is Model/Unrank.v (property C15)",
-    "distance_factor > 0, variances > 0 (alpha > 0), distances >= 0 in generated cases (the theorems need none of these except where stated)",
+    "DOMAIN of the model's agreement with numpy: distance_factor > 0, variances > 0 (hence alpha > 0: C05_domain_alpha_positive), distances >= 0 (C05_domain_distance_term), no NaN / inf inputs - the property's own quantifier, and all the generator produces.  The theorems hold of the MODEL without these hypotheses, but outside them the model is a totalisation (1/0 = 0, ln of a non-positive number = the oracle's value, df * -inf = -inf for every df) that numpy does not share (inf / NaN): there they are not claims about the code",
     "predict_mean_all / predict_variance_all are the identity on the rows returned by the thetas (exercised, not modelled); dict order = insertion order",
 ]
 EXPLANATION = ("Model: Model/Dbal.v (+ Model/Unrank.v for the ranks -> triples step).  Modelled, not verified: numpy broadcasting/"
@@ -106,6 +114,29 @@ THEOREMS.update({
 EXPLANATION += ("  CONSTRUCTOR: GaussianDBALScorer.__init__ is re-translated on every run (LS_INIT_DBAL -> Generated/SrcInits.v) and proved to store its two "
                 "arguments; trusted: the translator only (no primitive): `self.<attr>` is a variable of the translation (attr_vars), the value of the translated __init__ is the tuple of the attributes when it ends; an attribute that is not declared is refused; the statement `super().__init__(**kwargs)` is IGNORED - trusted: the base class Scorer "
                 "defines no __init__ (object.__init__ stores nothing; its TypeError for unexpected keyword arguments is not modelled).")
+
+# ---- composition and domain theorems (gap review g2: G5.3 / G15.1, G5.6) ----
+THEOREMS.update({
+    "C05_full_draw_complete": "for T >= 3 every rng.choice answer obeying numpy's contract for rng.choice(C(T,3), size=C(T,3), replace=False) unranks WITHOUT ERROR to a complete enumeration (every triple a > b > c below T exactly once) of valid triples: the property's premise 'all triples are enumerated' follows from 'the budget covers C(T,3)' through C15's bijection",
+    "C05_draw_valid": "every contract-obeying answer (sub-sampled budgets included) unranks without error to k distinct valid triples: the hypothesis `triples_of_draw T idxs = Ok ts` of C05_checked_ok / C05_scorer_checked_ok always holds",
+    "C05_source_score_full_enumeration": "END TO END on the TRANSLATED GaussianDBALScorer.score: T >= 3, square T x T matrix, any max_chunk >= 1, any dict (distinct keys, selection vectors of one length) of well-formed plates, at least ceil(n/max_chunk) recorded answers each a full draw: the translation returns, no error, each key with the direct estimator of ITS OWN plate on any one complete enumeration - the right-hand side mentions neither max_chunk nor the other plates nor the draws",
+    "C05_source_hetero_full_enumeration": "the same for the translated dbal_fast_gaussian_scoring_heteroscedastic on a full draw, any distance_factor",
+    "C05_source_kernel_full_enumeration": "the vectorised kernel as: translated shape checks, translated index-to-triple run with budget max_combos >= C(T,3) on a contract-obeying answer, then the tensor expressions, on the padded arrays of any non-empty well-formed plate list = the direct estimator per plate",
+    "C05_domain_alpha_positive": "positive variances => alpha > 0 on every cell the kernel computes with (NaN-padded cells carry variance 1): the model's totalisation 1/0 = 0 is never reached on the property's domain",
+    "C05_domain_alpha_positive_direct": "the same for the direct estimator's alpha",
+    "C05_domain_distance_term": "non-negative matrix => the log-distance term is -inf exactly at summed distance 0, else distance_factor * ln of a POSITIVE number (np.log never sees a negative argument on the property's domain)",
+})
+
+EXPLANATION += ("  GAP REVIEW g2.  COMPOSITION (C05_full_draw_complete, C05_source_*_full_enumeration): the premise 'all triples are enumerated' is no longer a "
+                "hypothesis about triple lists but follows from numpy's contract for rng.choice(C(T,3), size=C(T,3), replace=False) through property C15's "
+                "bijection (Proofs/C15UseSite.v, Proofs/C05Compose.v); the end-to-end statement is about the translated score / wrapper / kernel runs.  "
+                "DOMAIN (C05_domain_*): see the assumptions - the model is total, numpy is not; on positive variances and non-negative matrices the "
+                "totalisations are provably never reached.  NOT translated, still: the tensor expressions of the kernel; their exercised region now "
+                "includes 50 plates per call and 4960 / 5000 triples (kernel-wide, kernel-many), by the direct-estimator predicate only.  "
+                "KNOWN FINDING (kind dtype): the dense array takes the dtype of the FIRST plate, so a float32 first plate lowers every other "
+                "plate's score to single precision (KNOWN_FINDINGS.json); the case is classified by cause - the mixed call is bit for bit the call "
+                "with every plate rounded to float32 - so any other dependence on a neighbour's dtype is reported as a new violation.  "
+                "Whether the documented estimator is the right formula (gap G5.2) is outside the property as given and not examined.")
 
 TRUSTED = [
     "source-translation links C05_model_is_source_*: the translator harness/py2gal.py (rendering into Lib/PyRt.v) and the primitives of the "
@@ -206,6 +237,17 @@ def _hetero(plates, D, df, seed, max_combos):
     return _canon_scores(out), rr
 
 
+def _hetero_dtypes(plates, dtypes, D, df, seed, max_combos):
+    """the heteroscedastic entry point with plate k handed over as numpy dtype dtypes[k]"""
+    from batchie.scoring import gaussian_dbal as G
+    rr = RecRng(seed)
+    out = G.dbal_fast_gaussian_scoring_heteroscedastic(
+        per_plate_predictions=[np.array(p["mu"], dtype=float).reshape(len(p["mu"]), -1).astype(dt) for p, dt in zip(plates, dtypes)],
+        variances=[np.array(p["var"], dtype=float).reshape(len(p["var"]), -1).astype(dt) for p, dt in zip(plates, dtypes)],
+        distance_matrix=np.array(D, dtype=float), rng=rr, max_combos=max_combos, distance_factor=df)
+    return _canon_scores(out), rr
+
+
 # --------------------------------------------------------------------------- scorer plumbing
 
 class _StubTheta:
@@ -260,6 +302,35 @@ def _scorer(plates, order, D, T, max_chunk, max_triples, seed, scorer=None):
         plates=pdict, distance_matrix=dm, samples=_StubThetas(MU, VAR), rng=rr, progress_bar=False)
     items = [(int(k), s) for k, s in zip(res.keys(), _canon_scores(list(res.values())))]
     return items, rr, keyof
+
+
+def _scorer_masks(MU, VAR, masks, keys, D, T, max_chunk, max_triples, seed):
+    """GaussianDBALScorer.score over ScreenSubsets of ONE screen given by arbitrary (overlapping, interleaved) boolean
+    selection vectors; MU / VAR are T x n arrays of prescribed per-row means / variances.  Returns ([(key, score)], RecRng)."""
+    from batchie.data import Screen, ScreenSubset
+    from batchie.distance_calculation import ChunkedDistanceMatrix
+    from batchie.scoring.gaussian_dbal import GaussianDBALScorer
+
+    MU = np.array(MU, dtype=float)
+    VAR = np.array(VAR, dtype=float)
+    n = MU.shape[1]
+    screen = Screen(
+        observations=np.zeros(n, dtype=float), observation_mask=np.zeros(n, dtype=bool),
+        sample_names=np.array(["s"] * n, dtype=str), plate_names=np.array(["p%02d" % (i % 3) for i in range(n)], dtype=str),
+        treatment_names=np.array([["a", "b"]] * n, dtype=str), treatment_doses=np.array([[2.0, 2.0]] * n))
+    pdict = {int(k): ScreenSubset(screen, np.array(m, dtype=bool)) for k, m in zip(keys, masks)}
+    dm = ChunkedDistanceMatrix(T)
+    for i in range(T):
+        for j in range(i):
+            dm.add_value(i, j, D[i][j])
+    rr = RecRng(seed)
+    res = GaussianDBALScorer(max_chunk=max_chunk, max_triples=max_triples).score(
+        plates=pdict, distance_matrix=dm, samples=_StubThetas(MU, VAR), rng=rr, progress_bar=False)
+    return [(int(k), sc) for k, sc in zip(res.keys(), _canon_scores(list(res.values())))], rr
+
+
+def _cols(A, mask):
+    return [[row[j] for j, m in enumerate(mask) if m] for row in A]
 
 
 # --------------------------------------------------------------------------- generation
@@ -350,6 +421,55 @@ def gen(rng, tier):
         rng.shuffle(plates)
         yield dict(kind="bigfp", T=T, plates=plates, D=_matrix(rng, T, zero_diag=False), df=1.0, seed=rng.randrange(1 << 30),
                    max_combos=5000, homo=False)
+    # ---- gap review g2 ----
+    # G5.1: the kernel at production widths (max_chunk = 50 plates per call) and production triple counts (thousands); the
+    # exact-rational model is not run, the predicate is the direct estimator per plate
+    for rep in range(2 * mult):
+        for n_plates in [5, 8, 9, 17, 50]:
+            T = rng.choice([3, 3, 4])
+            yield dict(kind="kernel-wide", T=T, plates=_plates(rng, T, n_plates, 1, False)[:n_plates], D=_matrix(rng, T, False),
+                       df=rng.choice([1.0, 1.0, 0.5]), seed=rng.randrange(1 << 30), max_combos=5000,
+                       via=("hetero" if (rep + n_plates) % 2 else "kernel"))
+    for T in ([12, 20, 32, 40] if tier == "quick" else [12, 20, 32, 40] * 3 + [13, 21, 31, 33]):
+        pls = _plates(rng, T, rng.choice([2, 3]), 1, False)
+        for p_ in pls:  # thousands of summands: keep the means small so that the summands stay comparable
+            p_["mu"] = [[x / 4 for x in row] for row in p_["mu"]]
+        yield dict(kind="kernel-many", T=T, plates=pls, D=_matrix(rng, T, False), df=1.0, seed=rng.randrange(1 << 30),
+                   max_combos=5000, via=rng.choice(["kernel", "hetero"]))
+    # more plates than the DEFAULT max_chunk (50): two sub-groups of the default-constructed scorer
+    for _ in range(2 * mult):
+        T = 3
+        n_plates = rng.randint(51, 64)
+        order = list(range(n_plates))
+        rng.shuffle(order)
+        yield dict(kind="scorer", T=T, plates=_plates(rng, T, n_plates, 1, False), D=_matrix(rng, T, True), df=1.0,
+                   seed=rng.randrange(1 << 30), max_combos=5000, order=order, max_chunk=50, max_chunk2=rng.choice([7, 64]), default_ctor=True)
+    # G5.5: overlapping / interleaved ScreenSubsets (own rows + a common batch block), as score_chunk builds them
+    for _ in range(40 * mult):
+        T = rng.choice([3, 3, 4, 4, 5])
+        n_plates = rng.choice([1, 2, 2, 3, 3, 4])
+        own = [rng.randint(0 if n_plates > 1 else 1, 3) for _ in range(n_plates)]
+        nb = rng.randint(1, 3)
+        n = sum(own) + nb + rng.randint(0, 2)            # some rows belong to no plate
+        rows = list(range(n))
+        rng.shuffle(rows)                                # interleaved, not contiguous
+        batch = rows[:nb]
+        masks, pos = [], nb
+        for o in own:
+            mine = set(rows[pos:pos + o]) | set(batch)
+            pos += o
+            masks.append([1 if j in mine else 0 for j in range(n)])
+        keys = rng.sample(range(100), n_plates)
+        ncomb = math.comb(T, 3)
+        yield dict(kind="scorer-overlap", T=T, MU=[[_mean(rng) for _ in range(n)] for _ in range(T)],
+                   VAR=[[_var(rng) for _ in range(n)] for _ in range(T)], masks=masks, keys=keys, D=_matrix(rng, T, True), df=1.0,
+                   seed=rng.randrange(1 << 30), max_combos=rng.choice([ncomb, 5000]), max_chunk=rng.randint(1, 4), max_chunk2=rng.randint(1, 4))
+    # G5.4: one plate handed over as float32; the other plates' scores must not move
+    for _ in range(30 * mult):
+        T = rng.choice([3, 4, 5])
+        n_plates = rng.choice([2, 2, 3])
+        yield dict(kind="dtype", T=T, plates=_plates(rng, T, n_plates, 1, False), D=_matrix(rng, T, False), df=1.0,
+                   seed=rng.randrange(1 << 30), max_combos=5000, cast=rng.choice([0, 0, 0, 1, n_plates - 1]))
     # malformed
     for _ in range(30 * mult):
         T = rng.choice([3, 4, 5])
@@ -432,10 +552,81 @@ def _invariances(desc, scores, full):
     return None
 
 
+def _run_overlap(desc):
+    """G5.5: GaussianDBALScorer.score on ScreenSubsets with overlapping, interleaved selection vectors"""
+    T, D, mc, seed = desc["T"], desc["D"], desc["max_combos"], desc["seed"]
+    MU, VAR, masks, keys, mchunk = desc["MU"], desc["VAR"], desc["masks"], desc["keys"], desc["max_chunk"]
+    plates = [dict(mu=_cols(MU, m), var=_cols(VAR, m)) for m in masks]
+    all_triples = list(itertools.combinations(range(T), 3))
+    n_groups = math.ceil(len(plates) / mchunk)
+    sizes = [sum(m) for m in masks]
+    feats = ["scorer-overlap", "T=%d" % T, "plates=%d" % len(plates), "groups=%d" % n_groups]
+    if len(set(sizes)) > 1:
+        feats.append("padding")
+    if any(any(a and b for a, b in zip(m1, m2)) for i, m1 in enumerate(masks) for m2 in masks[i + 1:]):
+        feats.append("overlapping")
+    if any(any(m[j] and not m[j + 1] and any(m[j + 2:]) for j in range(len(m) - 2)) for m in masks):
+        feats.append("interleaved")
+    items, rr = _scorer_masks(MU, VAR, masks, keys, D, T, mchunk, mc, seed)
+    pred = _contract(rr.calls, T, mc, n_groups)
+    if pred is None and [k for k, _ in items] != list(keys):
+        pred = "scorer keys %r are not the plate keys in order %r" % ([k for k, _ in items], keys)
+    if pred is None:
+        pred = _pred_direct([s_ for _, s_ in items], plates, D, 1.0, all_triples, "scorer on overlapping subsets")
+    if pred is None:
+        d1 = dict(items)
+        items2, _ = _scorer_masks(MU, VAR, masks[::-1], keys[::-1], D, T, desc["max_chunk2"], mc, seed + 9)
+        d2 = dict(items2)
+        for k in d1:
+            if not _same(d1[k], d2.get(k, "missing")):
+                pred = "plate key %d: score %r with max_chunk=%d but %r with max_chunk=%d and reversed plate order" % (
+                    k, d1[k], mchunk, d2.get(k), desc["max_chunk2"])
+        if pred is None and len(plates) >= 2:
+            j = seed % len(plates)
+            items3, _ = _scorer_masks(MU, VAR, [masks[j]], [keys[j]], D, T, mchunk, mc, seed + 11)
+            if not _same(items3[0][1], d1[keys[j]]):
+                pred = "plate key %d scores %r among the overlapping plates but %r when scored without them" % (keys[j], d1[keys[j]], items3[0][1])
+    wire = [3, mchunk, [[k, _fq(p["mu"]), _fq(p["var"])] for k, p in zip(keys, plates)], _fq(D), [c["result"] for c in rr.calls]]
+    return dict(wire=wire, impl=[[k, s_] for k, s_ in items], pred=pred, features=feats, cmp=cmp_result(_cmp_items))
+
+
+DTYPE_FINDING = "dtype-of-first-plate"
+
+
+def _run_dtype(desc, feats, all_triples):
+    """G5.4: plate `cast` is handed over as float32, the others as float64; the scores of the float64 plates must be what they
+    are without the cast (and the direct estimator)"""
+    T, plates, D, df, seed, mc, cast = desc["T"], desc["plates"], desc["D"], desc["df"], desc["seed"], desc["max_combos"], desc["cast"]
+    s64, rr = _hetero(plates, D, df, seed, mc)
+    pred = _contract(rr.calls, T, mc, 1) or _pred_direct(s64, plates, D, df, all_triples, "heteroscedastic (all plates float64)")
+    feats += ["cast-first" if cast == 0 else "cast-other"]
+    if pred is None:
+        s32, _ = _hetero_dtypes(plates, [np.float32 if k == cast else np.float64 for k in range(len(plates))], D, df, seed, mc)
+        # what the call computes if EVERY plate is rounded to float32: when the dense array silently takes the dtype of the
+        # first plate, the mixed call is bit for bit this one (assignment into a float32 array rounds like astype)
+        s32all, _ = _hetero_dtypes(plates, [np.float32] * len(plates), D, df, seed, mc)
+        for k in range(len(plates)):
+            if k == cast or _same(s32[k], s64[k]):
+                continue
+            ref = direct_loop(plates[k]["mu"], plates[k]["var"], D, df, all_triples)
+            fine = s32 == s32all
+            if cast == 0 and fine:
+                pred = ("%s: plate %d (float64, unchanged) scores %r when plate 0 is handed over as float32 but %r when plate 0 is "
+                        "float64 (direct estimator on plate %d alone: %r): its score depends on another plate's dtype / on the plate order"
+                        % (DTYPE_FINDING, k, s32[k], s64[k], k, ref))
+            else:
+                pred = "handing plate %d over as float32 changes the score of the float64 plate %d: %r -> %r (direct estimator %r)" % (
+                    cast, k, s64[k], s32[k], ref)
+            break
+    return dict(wire=None, impl=None, pred=pred, features=feats)
+
+
 def run(desc):
     from batchie.scoring import gaussian_dbal as G
 
     kind = desc["kind"]
+    if kind == "scorer-overlap":
+        return _run_overlap(desc)
     T, plates, D, df = desc["T"], desc["plates"], desc["D"], desc["df"]
     seed, mc = desc["seed"], desc["max_combos"]
     ncomb = math.comb(T, 3)
@@ -462,6 +653,29 @@ def run(desc):
 
     def arr(p, key):
         return np.array(p[key], dtype=float).reshape(T, -1)
+
+    if kind == "dtype":
+        return _run_dtype(desc, feats, all_triples)
+
+    if kind in ("kernel-wide", "kernel-many"):
+        # G5.1: production widths / triple counts; implementation-side predicate only
+        if desc.get("via") == "hetero":
+            scores, rr = _hetero(plates, D, df, seed, mc)
+        else:
+            E = max(sizes)
+            P = np.zeros((len(plates), T, E))
+            V = np.full((len(plates), T, E), np.nan)
+            for k, p in enumerate(plates):
+                P[k, :, :sizes[k]] = arr(p, "mu")
+                V[k, :, :sizes[k]] = arr(p, "var")
+            rr = RecRng(seed)
+            scores = _canon_scores(G.dbal_fast_gauss_scoring_vectorized(
+                predictions=P, variances=V, distance_matrix=np.array(D, dtype=float), rng=rr, max_combos=mc, distance_factor=df))
+        bad = _contract(rr.calls, T, mc, 1)
+        triples = all_triples if full else (None if bad else _triples_of(rr.calls[0]["result"], T))
+        pred = bad or _pred_direct(scores, plates, D, df, triples, "vectorized kernel, %d plates, %d triples" % (len(plates), len(triples)))
+        feats += ["via-" + desc.get("via", "kernel"), "triples=%d" % (len(triples) if triples else 0)]
+        return dict(wire=None, impl=None, pred=pred, features=feats)
 
     if kind == "bigfp":
         scores, rr = _hetero(plates, D, df, seed, mc)
@@ -523,7 +737,15 @@ def run(desc):
         feats.append("groups=%d" % math.ceil(len(plates) / mchunk))
         if order != sorted(order):
             feats.append("shuffled-keys")
-        items, rr, keyof = _scorer(plates, order, D, T, mchunk, mc, seed)
+        dflt = None
+        if desc.get("default_ctor"):
+            from batchie.scoring.gaussian_dbal import GaussianDBALScorer
+            dflt = GaussianDBALScorer()      # the production configuration: max_chunk and max_triples as shipped
+            feats.append("default-constructor")
+            if (dflt.max_chunk, dflt.max_triples) != (mchunk, mc):
+                mchunk, mc = int(dflt.max_chunk), int(dflt.max_triples)
+                full = mc >= ncomb
+        items, rr, keyof = _scorer(plates, order, D, T, mchunk, mc, seed, scorer=dflt)
         n_groups = math.ceil(len(plates) / mchunk)
         bad = _contract(rr.calls, T, mc, n_groups)
         pred = bad
@@ -597,10 +819,14 @@ def run(desc):
 
 
 def shrink(desc):
-    if desc["kind"] in ("hetero", "kernel", "homo") and len(desc["plates"]) > 1:
+    if desc["kind"] == "dtype" and len(desc["plates"]) > 2:
+        for k in range(len(desc["plates"])):
+            if k != desc["cast"]:
+                yield dict(desc, plates=desc["plates"][:k] + desc["plates"][k + 1:], cast=desc["cast"] - (1 if k < desc["cast"] else 0))
+    if desc["kind"] in ("hetero", "kernel", "homo", "kernel-wide", "kernel-many") and len(desc["plates"]) > 1:
         for k in range(len(desc["plates"])):
             yield dict(desc, plates=desc["plates"][:k] + desc["plates"][k + 1:])
-    if desc["kind"] in ("hetero", "kernel", "homo"):
+    if desc["kind"] in ("hetero", "kernel", "homo", "kernel-wide", "kernel-many", "dtype"):
         for k, p in enumerate(desc["plates"]):
             if len(p["mu"][0]) > 1:
                 q = dict(mu=[r[:-1] for r in p["mu"]], var=[r[:-1] for r in p["var"]])
@@ -608,7 +834,10 @@ def shrink(desc):
 
 
 def signature(desc, res):
-    return "%s:%s" % (desc.get("kind"), (res.get("pred") or res.get("disagree") or "")[:40])
+    pred = res.get("pred") or ""
+    if desc.get("kind") == "dtype" and pred.startswith(DTYPE_FINDING + ":"):
+        return "dtype:first-plate-float32-lowers-precision-of-other-plates"
+    return "%s:%s" % (desc.get("kind"), (pred or res.get("disagree") or "")[:40])
 
 
 _MUTANTS = {
